@@ -36,14 +36,18 @@ CLAIMED.update({
     ),
     "C02": dict(
         category="proof",
-        text="Theorems for every executor, graph (cyclic and gated included) and step: an asynchronous superstep is invariant under any "
+        text="Theorems for every executor, graph (cyclic and gated included): an asynchronous superstep is invariant under any "
              "permutation of the completion order; on a non-failing step SyncRunner's and AsyncRunner's supersteps are equal (state and calls); "
-             "a failing step reports the same first-in-ready-order error under both. Tied to /repo by running each generated program "
+             "a failing step reports the same first-in-ready-order error under both; and NODE ORDER - with unique output names a run that "
+             "completes under one listing of the nodes completes under every other listing in the same state, with the same calls per "
+             "superstep up to order (the scheduler's derived maps, stale-decision clearing and ready list are listing-independent in every "
+             "state; effects of nodes with distinct names and disjoint outputs commute). Tied to /repo by running each generated program "
              "under SyncRunner, AsyncRunner with adversarial completion orders x max_concurrency, and permuted node lists.",
         design_ref="DESIGN.md section 5 C02",
-        note="Step-level theorems (lifted to runs by the loop characterisation of C04); node-list-permutation invariance and the partial-value "
-             "inclusion on failing runs are checked by the differential oracle, not proved. Model: coq/theories/Engine.v.",
-        technique="Coq proof (commutation of state updates, gmap extensionality) + adversarial-schedule differential runs",
+        note="The partial-value inclusion on failing runs is checked by the differential oracle, not proved (known finding F-b shows it is "
+             "false when a sibling listed after the failing node rewrites a name). Model: coq/theories/Engine.v; node order: NodeOrder.v.",
+        technique="Coq proof (commutation of state updates, gmap extensionality, permutation-equivariance of the ready list) + "
+                  "adversarial-schedule differential runs",
     ),
     "C03": dict(
         category="proof",
